@@ -32,6 +32,53 @@ impl Scenario for C17 {
         let bk = Bk::ALL[(run % 6) as usize];
         let mut b = Builder::new("C17", seed, run, vec![bk]);
         let fk = b.family_keys(bk.family(), false).unwrap();
+        // every fifth episode is a key rotation episode: threads use whatever key set is current while
+        // others replace it by fresh objects of another principal (freed and new objects share addresses)
+        if (run / 6) % 5 == 4 {
+            use crate::rotate::{ROp, RotationSpec};
+            let mut principals = vec![[fk.local, fk.secret, fk.public, fk.pke_public, fk.pke_secret]];
+            let np = if bk == Bk::V1 { 2 } else { 2 + b.rng.usize_below(2) };
+            for _ in 1..np {
+                let k = b.family_keys(bk.family(), false).unwrap();
+                principals.push([k.local, k.secret, k.public, k.pke_public, k.pke_secret]);
+            }
+            let slow = matches!(bk, Bk::V1 | Bk::V3);
+            let nthreads = 2 + b.rng.usize_below(if slow { 2 } else { 5 });
+            let maxlen = if tier == Tier::Quick { if slow { 8 } else { 30 } } else if slow { 16 } else { 60 };
+            let mut scripts = Vec::new();
+            for t in 0..nthreads {
+                let len = 4 + b.rng.usize_below(maxlen - 3);
+                let mut s = Vec::new();
+                for _ in 0..len {
+                    let kind = *b.rng.pick(&[Kind::Local, Kind::Secret, Kind::Public, Kind::PkePublic, Kind::PkeSecret]);
+                    // thread 0 rotates often, the others mostly use the keys
+                    let rot = if t == 0 { 3 } else { 1 };
+                    let op = match b.rng.below(16) {
+                        x if x < rot => ROp::Rotate,
+                        3 | 4 | 5 => ROp::Sign,
+                        6 | 7 => ROp::Verify,
+                        8 => ROp::Encrypt,
+                        9 => ROp::Decrypt,
+                        10 | 11 => ROp::Expose { kind },
+                        12 => ROp::Id { kind },
+                        13 => if bk == Bk::V1 && b.rng.chance(2, 3) { ROp::Sign } else { ROp::SealKey },
+                        14 => if bk == Bk::V1 && b.rng.chance(2, 3) { ROp::Verify } else { ROp::UnsealKey },
+                        _ => ROp::Verify,
+                    };
+                    s.push(op);
+                }
+                scripts.push(s);
+            }
+            let sched = match b.rng.below(4) {
+                0 | 1 => SchedKind::Random,
+                2 => SchedKind::Pct { depth: 1 + b.rng.below(3) as u32 },
+                _ => SchedKind::RoundRobin,
+            };
+            let fine = b.rng.bool();
+            let seed = b.ev_seed();
+            b.push(Step::Rotation { spec: RotationSpec { node: 0, principals, scripts, sched, seed, fine } });
+            return b.finish();
+        }
         let slow = matches!(bk, Bk::V1 | Bk::V3);
         let nthreads = 2 + b.rng.usize_below(if tier == Tier::Quick { if slow { 4 } else { 15 } } else { 15 });
         let maxlen = match (tier, slow) {
